@@ -472,6 +472,48 @@ func (e *qaEval) eval(v ssa.Value) (*QA, error) {
 
 // evalReturn: the value returned by fn (single result), joining all returns (must agree).
 func (e *qaEval) evalReturn(fn *ssa.Function) (*QA, error) {
+	// two returns under one two-way branch (`if c { return x }; return y`): if-then-else of the two values
+	var rets []*ssa.Return
+	for _, b := range fn.Blocks {
+		if b.Index != 0 && len(b.Preds) == 0 {
+			continue
+		}
+		if ret, ok := b.Instrs[len(b.Instrs)-1].(*ssa.Return); ok {
+			rets = append(rets, ret)
+		}
+	}
+	if len(rets) == 2 {
+		d := rets[0].Block()
+		for d != nil && !d.Dominates(rets[1].Block()) {
+			d = d.Idom()
+		}
+		if d != nil && len(d.Succs) == 2 {
+			if iff, ok := d.Instrs[len(d.Instrs)-1].(*ssa.If); ok {
+				side := func(b *ssa.BasicBlock) int {
+					for k, sx := range d.Succs {
+						if sx == b || sx.Dominates(b) {
+							return k
+						}
+					}
+					return -1
+				}
+				s0, s1 := side(rets[0].Block()), side(rets[1].Block())
+				if s0 >= 0 && s1 >= 0 && s0 != s1 {
+					c, err := e.eval(iff.Cond)
+					if err == nil {
+						v0, err0 := e.eval(rets[0].Results[0])
+						v1, err1 := e.eval(rets[1].Results[0])
+						if err0 == nil && err1 == nil {
+							if s0 == 0 {
+								return qaITE(c, v0, v1), nil
+							}
+							return qaITE(c, v1, v0), nil
+						}
+					}
+				}
+			}
+		}
+	}
 	var res *QA
 	for _, b := range fn.Blocks {
 		if b.Index != 0 && len(b.Preds) == 0 {
